@@ -1,5 +1,7 @@
 import ZV.Model.C13
 import ZV.Proofs.C13
+import ZV.Proofs.C13Der
+import ZV.Proofs.C13Shape
 /-!
   C13 — OCSP messages round-trip and bind to the issuer's signature.
 
@@ -304,5 +306,275 @@ example : signingParams .p224 0 = .ok (5, 10) := by decide
 example : signingParams .rsa 10 = .err := by decide
 example : signingParams .rsa 1 = .err := by decide
 end examples
+
+/-! ### the ASN.1 leg: ocsp.go's struct types as schema terms of the encoding/asn1 model (ZV.Model.C13Der)
+
+  `marshalRequest` / `parseRequest` model `(*Request).Marshal` / `ParseRequest`, `decodeOuter` / `decodeBasic` the two
+  `asn1.Unmarshal` calls of `ParseResponseForCert` with the read-out of every decoded field; all of them run the
+  deep-embedded `Marshal` / `Unmarshal` of ZV.Model.C18 on the schema terms `ocspRequestS`, `responseASN1S`,
+  `basicResponseRS`, … written after the struct tags of ocsp.go.  They are tied to the Go code by the T2 streams
+  `c13 rq`, `c13 rqd`, `c13 der` (through a hook that unmarshals into the package's own unexported types) and `c13 time`. -/
+
+/-- **OCSP requests round-trip** (instance of C18 `unmarshal_marshal` at `ocspRequestS`).  For every request with one of the
+    four supported hashes — any NameHash / IssuerKeyHash bytes, any serial, negative and arbitrarily large included —
+    `Request.Marshal` succeeds, and `ParseRequest` of the bytes (< 2^31 of them) returns exactly the request. -/
+theorem ocsp_request_roundtrip (r : Req) (hh : hashSupported r.hash = true) :
+    ∃ der, marshalRequest r = .ok der ∧ (der.length < 2147483648 → parseRequest der = .ok r) := by
+  obtain ⟨oid, ho, hok, hinv⟩ := hashOID_supported r.hash hh
+  obtain ⟨body, hb, _⟩ := C18.parseOID_makeOID oid hok
+  obtain ⟨der, hder⟩ := marshal_reqVal oid body hb r
+  refine ⟨der, by simp only [marshalRequest, ho]; exact hder [] (Or.inl rfl), fun hl => ?_⟩
+  obtain ⟨hd, he⟩ := inDomain_reqVal oid hok r
+  have hu := C18.unmarshal_marshal ocspRequestS {} (reqVal oid [5, 0] r) der [] hd he (hder [5, 0] (Or.inr rfl)) hl
+    (fun _ => Or.inl rfl)
+  rw [List.append_nil] at hu
+  have hne : hashOfOID oid ≠ 0 := by
+    rw [hinv]; simp only [hashSupported, decide_eq_true_eq] at hh; omega
+  simp only [parseRequest, hu, List.length_nil, gt_iff_lt, Nat.lt_irrefl, if_false, reqOfVal_reqVal oid [5, 0] r hne, hinv]
+
+/-- the value level of the same statement, in front of any `rest`: strict `Unmarshal(Marshal(req) ++ rest)` is the request
+    value — with `Parameters.FullBytes` of the NULL filled in, which is all that distinguishes it from the value
+    `Request.Marshal` builds (`RawValue{Tag: 5}`) — and exactly `rest`. -/
+theorem ocsp_request_value_roundtrip (r : Req) (oid : List Int) (ho : hashOID r.hash = some oid) (der rest : Bytes)
+    (hm : marshalRequest r = .ok der) (hl : der.length < 2147483648) :
+    C18.unmarshal false ocspRequestS {} (der ++ rest) = .ok (reqVal oid [5, 0] r, rest) ∧
+    C18.marshal ocspRequestS {} (reqVal oid [5, 0] r) = .ok der := by
+  have hh : hashSupported r.hash = true := by
+    cases hs : hashSupported r.hash with
+    | true => rfl
+    | false => rw [hashOID_unsupported r.hash hs] at ho; cases ho
+  obtain ⟨oid', ho', hok, _⟩ := hashOID_supported r.hash hh
+  rw [ho] at ho'; cases ho'
+  obtain ⟨body, hb, _⟩ := C18.parseOID_makeOID oid hok
+  obtain ⟨der', hder⟩ := marshal_reqVal oid body hb r
+  have : der' = der := by
+    have h1 := hder [] (Or.inl rfl)
+    simp only [marshalRequest, ho] at hm
+    rw [h1] at hm; cases hm; rfl
+  subst this
+  obtain ⟨hd, he⟩ := inDomain_reqVal oid hok r
+  exact ⟨C18.unmarshal_marshal ocspRequestS {} (reqVal oid [5, 0] r) der' rest hd he (hder [5, 0] (Or.inr rfl)) hl
+    (fun ho => by simp [ocspRequestS, C18.omitted, C18.isSliceKind] at ho), hder [5, 0] (Or.inr rfl)⟩
+
+/-- `ParseRequest` refuses a marshalled request followed by anything ("trailing data in OCSP request") -/
+theorem ocsp_request_trailing_rejected (r : Req) (der : Bytes) (x : UInt8) (rest : Bytes)
+    (hm : marshalRequest r = .ok der) (hl : der.length < 2147483648) : parseRequest (der ++ x :: rest) = .err := by
+  cases ho : hashOID r.hash with
+  | none => simp [marshalRequest, ho] at hm
+  | some oid =>
+    have := (ocsp_request_value_roundtrip r oid ho der (x :: rest) hm hl).1
+    simp [parseRequest, this]
+
+/-- … and `Request.Marshal` refuses every other hash ("Unknown hash algorithm") -/
+theorem ocsp_request_unsupported_hash (r : Req) (hh : hashSupported r.hash = false) : marshalRequest r = .err := by
+  simp [marshalRequest, hashOID_unsupported r.hash hh]
+
+/-- the hypotheses are satisfiable: SHA-256, empty and non-empty hashes, a negative serial -/
+example : hashSupported ({ hash := 5, nameHash := [], keyHash := [1, 2, 3], serial := -129 } : Req).hash = true := by decide
+example : parseRequest [0x30, 0x1d, 0x30, 0x1b, 0x30, 0x19, 0x30, 0x17, 0x30, 0x15, 0x30, 0x09, 0x06, 0x05, 0x2b, 0x0e, 0x03, 0x02, 0x1a, 0x05, 0x00,
+      0x04, 0x01, 0xaa, 0x04, 0x02, 0xbb, 0xcc, 0x02, 0x01, 0x80] =
+    .ok { hash := 3, nameHash := [0xaa], keyHash := [0xbb, 0xcc], serial := -128 } := by decide
+
+/-- **no panic**: every `asn1.Unmarshal` the package performs — `responseASN1`, `basicResponse` (with the elements of
+    `Responses` kept raw, with the TBS kept raw, and as one term), `singleResponse`, its field loops in front of and after
+    `NextUpdate`, `ocspRequest` — on every byte string, strict and permissive mode (instances of C01
+    `asn1_unmarshal_no_panic` / `asn1_fields_no_panic`) -/
+theorem ocsp_asn1_no_panic (perm : Bool) (bs : Bytes) :
+    C18.unmarshal perm responseASN1S {} bs ≠ .panic ∧ C18.unmarshal perm basicResponseS {} bs ≠ .panic ∧
+    C18.unmarshal perm basicResponseRS {} bs ≠ .panic ∧ C18.unmarshal perm basicResponseRawS {} bs ≠ .panic ∧
+    C18.unmarshal perm singleResponseS {} bs ≠ .panic ∧ C18.parseFields perm singlePrefixF bs ≠ .panic ∧
+    C18.parseFields perm singleSuffixF bs ≠ .panic ∧ C18.unmarshal perm ocspRequestS {} bs ≠ .panic :=
+  ⟨C01.asn1_unmarshal_no_panic _ _ _ _, C01.asn1_unmarshal_no_panic _ _ _ _, C01.asn1_unmarshal_no_panic _ _ _ _,
+   C01.asn1_unmarshal_no_panic _ _ _ _, C01.asn1_unmarshal_no_panic _ _ _ _, C01.asn1_fields_no_panic _ _ _,
+   C01.asn1_fields_no_panic _ _ _, C01.asn1_unmarshal_no_panic _ _ _ _⟩
+
+/-- **never reads past the input**: what each of these calls returns as `rest` is a suffix of what it was given, and it
+    is at least two bytes shorter than the input: none of these types is OPTIONAL at top level, so a whole element is
+    consumed (instances of C01 `asn1_unmarshal_consumed` and of the in-bounds lemmas behind `asn1_element_in_bounds`) -/
+theorem ocsp_asn1_consumed (perm : Bool) (s : C18.Schema)
+    (hs : s = responseASN1S ∨ s = basicResponseS ∨ s = basicResponseRS ∨ s = basicResponseRawS ∨ s = singleResponseS ∨ s = ocspRequestS)
+    (bs : Bytes) (v : C18.Val) (rest : Bytes) (h : C18.unmarshal perm s {} bs = .ok (v, rest)) :
+    rest <:+ bs ∧ rest.length + 2 ≤ bs.length := by
+  refine ⟨C01.asn1_unmarshal_consumed perm s {} bs v rest h, ?_⟩
+  rcases hs with rfl | rfl | rfl | rfl | rfl | rfl <;> exact struct_top_adv perm _ bs v rest h
+
+/-- the two decoding steps of `ParseResponseForCert` as modelled (`decodeOuter`, `decodeBasic`: schema decode + read-out of the
+    fields + time contents + `NextUpdate`): the `rest` they hand to the `len(rest) > 0` tests is a suffix of their input, at
+    least two bytes shorter -/
+theorem ocsp_decode_rest (der : Bytes) :
+    (∀ st ty body rest, decodeOuter der = .ok (st, ty, body, rest) → rest <:+ der ∧ rest.length + 2 ≤ der.length) ∧
+    (∀ b rest, decodeBasic der = .ok (b, rest) → rest <:+ der ∧ rest.length + 2 ≤ der.length) :=
+  ⟨fun st ty body rest h => decodeOuter_rest der st ty body rest h, fun b rest h => decodeBasic_rest der b rest h⟩
+
+/-- **the decoder that is tied to the code reads `singleResponse` as its schema term does**, part 1: the field loop of the struct
+    arm over the seven fields of `singleResponseS` IS the field loop over `singlePrefixF` (CertID, Good, Revoked, Unknown,
+    ThisUpdate), then the [0] element, then the field loop over `singleSuffixF` (SingleExtensions), each on what the
+    previous one left — the decomposition `decodeSingle` uses, with `parseNext` in place of the RawValue in the middle. -/
+theorem ocsp_single_fields_split (perm : Bool) (bs : Bytes) :
+    singleResponseS = .struct (fapp singlePrefixF (.fcons nextRawP .raw singleSuffixF)) ∧
+    C18.parseFields perm (fapp singlePrefixF (.fcons nextRawP .raw singleSuffixF)) bs =
+      (match C18.parseFields perm singlePrefixF bs with
+       | .ok (pv, r1) =>
+         (match C18.parseField perm .raw nextRawP r1 with
+          | .ok (nv, r2) =>
+            (match C18.parseFields perm singleSuffixF r2 with
+             | .ok (sv, r3) => .ok (vapp pv (.vcons nv sv), r3)
+             | .err => .err
+             | .panic => .panic)
+          | .err => .err
+          | .panic => .panic)
+       | .err => .err
+       | .panic => .panic) := by
+  refine ⟨rfl, ?_⟩
+  rw [parseFields_fapp perm singlePrefixF _ (by decide) bs]
+  cases h1 : C18.parseFields perm singlePrefixF bs with
+  | err => rfl
+  | panic => rfl
+  | ok x =>
+    obtain ⟨pv, r1⟩ := x
+    simp only [C18.parseFields]
+    cases h2 : C18.parseField perm .raw nextRawP r1 with
+    | err => rfl
+    | panic => rfl
+    | ok y =>
+      obtain ⟨nv, r2⟩ := y
+      simp only
+      cases h3 : C18.parseFields perm singleSuffixF r2 with
+      | err => rfl
+      | panic => rfl
+      | ok z => obtain ⟨sv, r3⟩ := z; rfl
+
+/-- part 2, **where a RawValue stands in for `NextUpdate time.Time "explicit,tag:0,optional"` exactly**: if the RawValue field
+    of `singleResponseS` accepts the bytes and `nextOfRaw` of its value is not `inexact` — i.e. the field is absent, or the [0]
+    wrapper is empty, or it holds exactly one primitive universal element with tag 23 / 24 — then the `time.Time` reading
+    `parseNext` of the same bytes gives the same answer (absent / that time / error) and leaves the same bytes.  Outside
+    (`inexact`: the wrapper holds something else, or more, or less) the Go decoder continues after the INNER element and
+    the two readings differ — there `decodeSingle`, which uses `parseNext`, is the model, and it is what T2 compares. -/
+theorem ocsp_next_update_raw_exact (bs : Bytes) (v : C18.Val) (r2 : Bytes)
+    (h : C18.parseField false .raw nextRawP bs = .ok (v, r2)) :
+    (nextOfRaw v = .absent → parseNext bs = .ok (none, bs) ∧ r2 = bs) ∧
+    (∀ x, nextOfRaw v = .at x → parseNext bs = .ok (some x, r2)) ∧
+    (nextOfRaw v = .err → parseNext bs = .err) := next_raw_exact bs v r2 h
+
+/-- the three exact cases and the inexact one, on concrete bytes -/
+example : (match C18.parseField false .raw nextRawP [0x30, 0x00] with | .ok (v, _) => some (nextOfRaw v) | _ => none) = some .absent ∧
+    (match C18.parseField false .raw nextRawP [0xa0, 0x11, 0x18, 0x0f, 0x32, 0x30, 0x32, 0x34, 0x30, 0x31, 0x30, 0x31, 0x30, 0x30, 0x30, 0x30, 0x30, 0x30, 0x5a] with
+      | .ok (v, _) => some (nextOfRaw v) | _ => none) = some (.at 1704067200) ∧
+    (match C18.parseField false .raw nextRawP [0xa0, 0x00] with | .ok (v, _) => some (nextOfRaw v) | _ => none) = some .err ∧
+    (match C18.parseField false .raw nextRawP [0xa0, 0x03, 0x02, 0x01, 0x05] with | .ok (v, _) => some (nextOfRaw v) | _ => none) = some .inexact := by
+  decide
+
+/-- `NextUpdate` (`parseNext`, the `time.Time` arm of `parseField` under `explicit,tag:0,optional`): the remainder is a
+    suffix of the input, and an absent field consumes nothing -/
+theorem ocsp_next_update_consumed (bs : Bytes) (x : Option Int) (r : Bytes) (h : parseNext bs = .ok (x, r)) :
+    r <:+ bs ∧ (x = none → r = bs) := parseNext_consumed bs x r h
+
+example : parseNext [0xa0, 0x11, 0x18, 0x0f, 0x32, 0x30, 0x32, 0x34, 0x30, 0x31, 0x30, 0x31, 0x30, 0x30, 0x30, 0x30, 0x30, 0x30, 0x5a, 0xa1] =
+    .ok (some 1704067200, [0xa1]) := by decide
+/-- the wrapper's own length is not looked at (here it claims 0x7f bytes), an inner element that is not a time means
+    "absent", an empty wrapper is an error -/
+example : parseNext [0xa0, 0x7f, 0x18, 0x0f, 0x32, 0x30, 0x32, 0x34, 0x30, 0x31, 0x30, 0x31, 0x30, 0x30, 0x30, 0x30, 0x30, 0x30, 0x5a] =
+    .ok (some 1704067200, []) := by decide
+example : parseNext [0xa0, 0x03, 0x02, 0x01, 0x05] = .ok (none, [0xa0, 0x03, 0x02, 0x01, 0x05]) ∧ parseNext [0xa0, 0x00] = .err := by
+  decide
+
+/-! ### ParseResponseForCert from the bytes
+
+  `parseBytes verify tbsOf sigOf algOf certOf der cert issuer` = decode `der` (`decodeOuter`, `decodeBasic`), build the
+  abstract input, run `parse`.  Abstract: the signature primitive `verify`, how byte strings are presented to it (`tbsOf`,
+  `sigOf` = RightAlign of the BIT STRING, `algOf` = getSignatureAlgorithmFromOID) and `x509.ParseCertificate` (`certOf`).
+  Tied to the real `ParseResponseForCert` by the T2 stream `c13 bytes` (the Lean side gets the DER, the
+  x509.ParseCertificate outcome and the three signature-primitive bits, nothing else). -/
+
+/-- **binding to the issuer's signature, from the bytes**: if `ParseResponseForCert(der, cert, issuer)` accepts with a
+    non-nil issuer, then `der` is exactly one OCSPResponse (no trailing data) with status `successful` and type
+    id-pkix-ocsp-basic, its `response` OCTET STRING is exactly one BasicOCSPResponse, and the signature BIT STRING of THAT
+    element verifies, with the algorithm named by ITS signatureAlgorithm OID, over the bytes of ITS tbsResponseData element —
+    under the issuer key, or under the key of the first embedded certificate, which the issuer signed. -/
+theorem bytes_accept_implies_sig (tbsOf : Bytes → B) (sigOf : Bytes → Int → B) (algOf : List Int → Nat)
+    (certOf : Bytes → Option (ECert K B)) (der : Bytes) (cert : Option Int) (ik : K) (o : Out K B)
+    (h : parseBytes verify tbsOf sigOf algOf certOf der cert (some ik) = .ok (.ok o)) :
+    ∃ body b, decodeOuter der = .ok (0, idBasic, body, []) ∧ decodeBasic body = .ok (b, []) ∧
+      ((b.certs = [] ∧ o.certificate = none ∧
+          verify ik (algOf b.sigOid) (tbsOf b.tbs) (sigOf b.sigBytes b.sigBitLen) = true) ∨
+       (∃ c rest e, b.certs = c :: rest ∧ certOf c = some e ∧ o.certificate = some e ∧
+          verify e.key (algOf b.sigOid) (tbsOf b.tbs) (sigOf b.sigBytes b.sigBitLen) = true ∧
+          verify ik e.alg e.tbs e.sig = true)) := by
+  unfold parseBytes at h
+  split at h
+  · rename_i inp hinp
+    simp only [Dec.ok.injEq] at h
+    have hacc := (parse_ok_iff verify inp cert (some ik) o).mp h
+    obtain ⟨st, ty, body, b, hout, hbas, rfl⟩ := inputOfBytes_basic tbsOf sigOf algOf certOf der inp hinp hacc.basic
+    have hst : st = 0 := by
+      have := hacc.status
+      simp only [fullInput] at this
+      omega
+    have hty : ty = idBasic := by
+      have := hacc.type
+      simpa [fullInput] using this
+    subst hst; subst hty
+    refine ⟨body, b, hout, hbas, ?_⟩
+    rcases resp_accept_implies_sig verify _ cert ik o h with ⟨hn, hc, hv⟩ | ⟨e, rest, hc, ho, hv1, hv2⟩
+    · left
+      simp only [fullInput, List.map_eq_nil_iff] at hn hv
+      exact ⟨hn, hc, hv⟩
+    · right
+      simp only [fullInput] at hc hv1
+      cases hcs : b.certs with
+      | nil => rw [hcs] at hc; simp at hc
+      | cons c cs =>
+        rw [hcs] at hc
+        simp only [List.map_cons, List.cons.injEq] at hc
+        exact ⟨c, cs, e, rfl, hc.1, ho, hv1, hv2⟩
+  · cases h
+  · cases h
+
+/-- **tampering is rejected, from the bytes**: bytes whose decoded TBS / signature / algorithm do not verify under the issuer
+    key (no embedded certificate) are never accepted — whatever else they contain -/
+theorem bytes_tamper_rejected (tbsOf : Bytes → B) (sigOf : Bytes → Int → B) (algOf : List Int → Nat)
+    (certOf : Bytes → Option (ECert K B)) (der body : Bytes) (b : DBasic) (cert : Option Int) (ik : K)
+    (hout : decodeOuter der = .ok (0, idBasic, body, [])) (hbas : decodeBasic body = .ok (b, [])) (hno : b.certs = [])
+    (hbad : verify ik (algOf b.sigOid) (tbsOf b.tbs) (sigOf b.sigBytes b.sigBitLen) = false) :
+    ∀ o, parseBytes verify tbsOf sigOf algOf certOf der cert (some ik) ≠ .ok (.ok o) := by
+  intro o h
+  obtain ⟨body', b', hout', hbas', hsig⟩ := bytes_accept_implies_sig verify tbsOf sigOf algOf certOf der cert ik o h
+  rw [hout] at hout'
+  simp only [Dec.ok.injEq, Prod.mk.injEq, true_and] at hout'
+  obtain ⟨rfl, _⟩ := hout'
+  rw [hbas] at hbas'
+  simp only [Dec.ok.injEq, Prod.mk.injEq, and_true] at hbas'
+  subst hbas'
+  rcases hsig with ⟨_, _, hv⟩ | ⟨c, rest, e, hc, _⟩
+  · rw [hbad] at hv; cases hv
+  · rw [hno] at hc; cases hc
+
+/-- **typing of the asn1 decoder** (for every Go type of the model's type language, every parameter-less top-level call, both
+    modes): what `Unmarshal` returns is a value of the shape of the type (`Pres`): integers for the integer kinds, a field list
+    of the right length for a struct with every field either a present value of its type or — OPTIONAL fields only — the
+    default the decoder assigns, a `vnil`-terminated list of element values for a slice, a RawValue with non-empty
+    `FullBytes` for a RawValue.  (A statement about ZV.Model.C18 that C18 / C01 do not have; proved here because the OCSP
+    read-out needs it.) -/
+theorem ocsp_asn1_typed (perm : Bool) (s : C18.Schema) (bs : Bytes) (v : C18.Val) (rest : Bytes)
+    (h : C18.unmarshal perm s {} bs = .ok (v, rest)) : Pres s v := unmarshal_pres perm s bs v rest h
+
+/-- **the read-out is total**: the values the two decoding steps get from `Unmarshal` always have the shape the read-out
+    expects — `decodeOuter` / `decodeBasic` answer a decoded structure or `err`, never `shape`, on every byte string; hence the
+    abstract input of the decision model is always built and `parseBytes` always returns a decision of `parse` (which never
+    panics: `parse_never_panics`) -/
+theorem ocsp_decode_total (der : Bytes) :
+    ¬ (decodeOuter der matches .shape) ∧ ¬ (decodeBasic der matches .shape) :=
+  ⟨decodeOuter_no_shape der, decodeBasic_no_shape der⟩
+
+/-- from the bytes the model always returns a decision of `parse`, and that decision is never a panic -/
+theorem bytes_total (tbsOf : Bytes → B) (sigOf : Bytes → Int → B) (algOf : List Int → Nat)
+    (certOf : Bytes → Option (ECert K B)) (der : Bytes) (cert : Option Int) (issuer : Option K) :
+    ∃ r, parseBytes verify tbsOf sigOf algOf certOf der cert issuer = .ok r ∧ r ≠ .panic := by
+  obtain ⟨inp, hinp⟩ := inputOfBytes_no_shape tbsOf sigOf algOf certOf der
+  exact ⟨parse verify inp cert issuer, by simp [parseBytes, hinp], parse_never_panics verify inp cert issuer⟩
+
+/-- on concrete bytes: an error response (status 1, no responseBytes) is decoded and refused by the status test -/
+example : (parseBytes (fun (_ : Nat) _ (_ : Nat) _ => true) (fun _ => 0) (fun _ _ => 0) (fun _ => 0) (fun _ => (none : Option (ECert Nat Nat)))
+    [0x30, 0x03, 0x0a, 0x01, 0x01] none none matches .ok .err) = true := by decide
 
 end ZV.C13
